@@ -310,8 +310,10 @@ def eval_history(case):
                 changed_steps += 1
                 reuse = False
         elif step == "setpoint":
-            # set-points of controlling components (structure unchanged)
-            sp = [(e, c_) for e in rec["elements"] for c_ in {"compressor": ["pressure_ratio"], "flow_control": ["controlled_mdot_kg_per_s", "control_active"],
+            # set-points of controlling components (structure unchanged; control_active is NOT toggled: an active flow controller
+            # has an equation of its own, so toggling it changes the system - seen as "matrix - rhs dimension mismatch" when done
+            # under reuse_internal_data, which is the caller's responsibility)
+            sp = [(e, c_) for e in rec["elements"] for c_ in {"compressor": ["pressure_ratio"], "flow_control": ["controlled_mdot_kg_per_s"],
                                                                "press_control": ["controlled_p_bar"], "pump": ["std_type"],
                                                                "circ_pump_pressure": ["plift_bar"], "heat_exchanger": ["qext_w"]}.get(e["table"], [])]
             if sp:
